@@ -19,6 +19,7 @@
 #include <stdio.h>
 #include <stdlib.h>
 #include <string.h>
+#include <sys/sendfile.h>
 #include <sys/stat.h>
 #include <sys/syscall.h>
 #include <sys/types.h>
@@ -254,6 +255,37 @@ ssize_t writev(int fd, const struct iovec *iov, int cnt) {
     REAL(writev);
     if (tracked(fd)) { char d[32]; snprintf(d, sizeof(d), "fd%d", fd); event(1, "writev", d, cnt); fdstate[fd] |= 4; }
     return real_writev(fd, iov, cnt);
+}
+
+/* in-kernel copies (shutil.copyfile uses them): mutate the output descriptor like a write */
+ssize_t sendfile(int out, int in, off_t *off, size_t n) {
+    REAL(sendfile);
+    if (tracked(out)) {
+        char d[32]; snprintf(d, sizeof(d), "fd%d", out);
+        if (event(1, "sendfile", d, (long)n)) { real_sendfile(out, in, off, n / 2); die_now(); }
+        fdstate[out] |= 4;
+    }
+    return real_sendfile(out, in, off, n);
+}
+
+ssize_t sendfile64(int out, int in, off64_t *off, size_t n) {
+    REAL(sendfile64);
+    if (tracked(out)) {
+        char d[32]; snprintf(d, sizeof(d), "fd%d", out);
+        if (event(1, "sendfile", d, (long)n)) { real_sendfile64(out, in, off, n / 2); die_now(); }
+        fdstate[out] |= 4;
+    }
+    return real_sendfile64(out, in, off, n);
+}
+
+ssize_t copy_file_range(int in, off64_t *oin, int out, off64_t *oout, size_t n, unsigned int flags) {
+    REAL(copy_file_range);
+    if (tracked(out)) {
+        char d[32]; snprintf(d, sizeof(d), "fd%d", out);
+        if (event(1, "copy_file_range", d, (long)n)) { real_copy_file_range(in, oin, out, oout, n / 2, flags); die_now(); }
+        fdstate[out] |= 4;
+    }
+    return real_copy_file_range(in, oin, out, oout, n, flags);
 }
 
 ssize_t read(int fd, void *buf, size_t n) {
